@@ -91,6 +91,7 @@ type harness struct {
 	rnd *hx.Rand
 
 	tarfsAllocMax uint64
+	ndbAlloc      uint64
 	unclassified  atomic.Int64
 	dumped        atomic.Int64
 }
@@ -140,6 +141,13 @@ func Run(cfg hx.Config) error {
 	// nothing the implementation does there can take the harness down. When it
 	// already has a concrete unclassified failure, the in-process part (which a
 	// fatal error of the implementation would kill, losing that witness) is skipped.
+	if os.Getenv("C06_ONLY") == "race" {
+		// development aid: the race-detector pass alone
+		built := make(chan raceBuild, 1)
+		built <- buildRaceWorker(cfg)
+		h.raceStream(built)
+		return nil
+	}
 	h.searchStream()
 	if n := h.unclassified.Load(); n > 0 {
 		r.Notes["in_process_streams"] = fmt.Sprintf("skipped: the search reported %d unclassified failure(s)", n)
@@ -152,6 +160,7 @@ func Run(cfg hx.Config) error {
 	h.rpmHdrStream()
 	h.bdbStream()
 	h.bdbFanStream()
+	h.fieldSweepStream()
 	h.dlexStream()
 	h.ndbStream()
 	return nil
